@@ -208,10 +208,15 @@ def finish(prop, tier, seed, level, results, dead, t0, m):
             continue
         replayed += 1
         for f in st['other']:
-            f['kind'] = f['kind']
             f['detail'] = dict(f.get('detail') or {}, regression_of=w.get('id'))
             f['hashseed'] = w.get('hashseed', 0)
-            violations.append(f)
+            # the witness program may also carry a recorded finding of ANOTHER mechanism (same attribution rule as for
+            # every generated case: family tag + kind + property); everything else is the defect coming back
+            kk = attributed(f, prop, known)
+            if kk is None:
+                violations.append(f)
+            else:
+                known_hits[kk['id']] = known_hits.get(kk['id'], 0) + 1
     counters['fixed_witnesses_replayed'] = replayed
     floors = getattr(m, 'FLOORS', {}).get(prop, {})
     floor_fail = [f'{k}={counters.get(k, 0)}<{v}' for k, v in floors.items() if counters.get(k, 0) < v]
